@@ -114,7 +114,7 @@ def dhcp_rules(ck, agg, nn):
     for via in (DEFAULT, 0o1, 0o5, 0o12, 0o345, 0o444, 0o21):
         for requester in (7,):
             n += 1
-            st, node = nn.fresh(fields={"_do_dhcp": True, "_id": 0, "_addr": 0}, frame_pins={"from_node": via, "reserved": requester, "message_type": T.CONSTANTS["MESH_ADDR_REQUEST"]})
+            st, node = nn.fresh(fields={"_do_dhcp": True, net.FN("_id"): 0, net.FN("_addr"): 0}, frame_pins={"from_node": via, "reserved": requester, "message_type": T.CONSTANTS["MESH_ADDR_REQUEST"]})
             outs = nn.run(f, node, [], st, limits=Limits(max_paths=60000, loop_unroll=2, depth=14, concrete_loop=12))
             direct = via == DEFAULT
             base = 0 if direct else via
@@ -181,7 +181,7 @@ def dhcp_rules(ck, agg, nn):
                             "%s: _write(%r, %r)" % (label, a[0], a[1]))
             agg.add("R16.1", f, "every child address of the relaying node can be offered, highest digit first", offered == set(want), "%s: offered %s, children %s" % (label, sorted(map(str, offered)), [oct(w) for w in want]))
     # not armed: nothing happens
-    st, node = nn.fresh(fields={"_do_dhcp": False, "_id": 0, "_addr": 0})
+    st, node = nn.fresh(fields={"_do_dhcp": False, net.FN("_id"): 0, net.FN("_addr"): 0})
     outs = nn.run(f, node, [], st)
     for out in outs:
         agg.add("R16.6", f, "without a pending request _dhcp() does nothing", out.kind == "return" and not [e for e in out.trace if e.kind in ("lease", "summary")], "effects without a request")
@@ -233,7 +233,7 @@ def table_ops(ck, agg, nn):
     n = 0
     for by_addr in (False, True):
         n += 1
-        st, node = nn.fresh(fields={"_id": 0, "_addr": 0})
+        st, node = nn.fresh(fields={net.FN("_id"): 0, net.FN("_addr"): 0})
         outs = nn.run(f_set, node, [Const(7), Const(0o15), Const(by_addr)], st)
         for out in outs:
             if out.kind != "return":
@@ -260,7 +260,7 @@ def table_ops(ck, agg, nn):
                         "an entry is deleted without its address matching")
     for addr in (0o15,):
         n += 1
-        st, node = nn.fresh(fields={"_id": 0, "_addr": 0})
+        st, node = nn.fresh(fields={net.FN("_id"): 0, net.FN("_addr"): 0})
         outs = nn.run(f_rel, node, [Const(addr)], st)
         for out in outs:
             if out.kind != "return":
@@ -315,7 +315,7 @@ def dispatch(ck, agg, nn):
         for mtype, reserved, frm in ((T.CONSTANTS["MESH_ADDR_REQUEST"], 7, DEFAULT), (T.CONSTANTS["MESH_ADDR_REQUEST"], 0, DEFAULT), (T.CONSTANTS["MESH_ADDR_RELEASE"], 0, 0o15), (5, 7, 0o15)):
             n += 1
             nn.model.opaque[key] = fixed_update(mtype, reserved, frm)
-            st, node = nn.fresh(fields={"_id": 0, "_addr": 0, "_do_dhcp": False})
+            st, node = nn.fresh(fields={net.FN("_id"): 0, net.FN("_addr"): 0, "_do_dhcp": False})
             outs = nn.run(fu, node, [], st)
             for out in outs:
                 if out.kind != "return":
@@ -451,7 +451,7 @@ def persistence(ck, agg, nn):
     w_id = w_addr = rec_len = None
     for as_bin in (True, False):
         n += 1
-        st, node = nn.fresh(fields={"_id": 0, "_addr": 0})
+        st, node = nn.fresh(fields={net.FN("_id"): 0, net.FN("_addr"): 0})
         outs = nn.run(f_save, node, [Const("f"), Const(as_bin)], st)
         for out in outs:
             if out.kind != "return":
@@ -488,7 +488,7 @@ def persistence(ck, agg, nn):
     nn.model.opaque[f_set.qualname] = rec_set
     for as_bin in (True, False):
         n += 1
-        st, node = nn.fresh(fields={"_id": 0, "_addr": 0})
+        st, node = nn.fresh(fields={net.FN("_id"): 0, net.FN("_addr"): 0})
         outs = nn.run(f_load, node, [Const("f"), Const(as_bin)], st)
         nleases = nlayouts = 0
         for out in outs:
